@@ -6,7 +6,8 @@
     tosend.go  : OneTxToSend.Add / Delete(with_children) / GetChildren / GetAllChildren / removeExcessiveTxs
     mining.go  : mined / unmined / txMined / BlockMined / BlockUndone
     rjected.go : OneTxRejected.Add / Delete / cleanup, rejectTx, txAccepted, the TRIdxArray ring
-    sort.go    : AddToSort / DelFromSort / insertDownFromHere / findWorstParent, buildSortedList,
+    sort.go    : AddToSort / DelFromSort / insertDownFromHere / findWorstParent (by SortRank) / insertBefore /
+                 fixIndex / reindexDown / reindexEverything / adjustSortIndexStep, buildSortedList,
                  GetSortedMempoolSlow, GetSortedMempool, expireOldTxs
     disk.go    : MempoolSave + MempoolLoad (as the state transformer `reload`)
 
@@ -113,6 +114,10 @@ structure State where
   waiting : AList Nat (TxId × List Nat) := [] -- WaitingForInputs
   rejSpent : AList Nat (List Nat) := []      -- RejectedSpentOutputs
   sorted : List Nat := []                    -- BestT2S … WorstT2S (BIDX)
+  ranks : AList Nat Nat := []                -- SortRank of the records on the list (BIDX → uint64)
+  sortStep : Nat := 2 ^ 60 / 200000          -- sortIndexStep (InitMempool: adjustSortIndexStep() with an empty pool)
+  rankWrap : Bool := false                   -- ghost (no Go counterpart): since the last rebuild a SortRank computation
+                                             -- left the uint64 range or met sortIndexStep (/16) = 0, see `fixIndex`
   sortDirty : Bool := false
   sortDisabled : Bool := false
   weightTotal : Nat := 0                     -- TransactionsToSendWeight
@@ -248,40 +253,105 @@ def posOf (b : Nat) : List Nat → Nat → Option Nat
 def memParents (K : Keys) (t : T2S) : List Nat :=
   (t.tx.ins.zip t.mem).filterMap fun (i, m) => if m then some (K.bidx i.prev) else none
 
-/-- findWorstParent: the flagged parent with the highest SortRank, as a list position -/
-def worstParentPos (K : Keys) (s : State) (t : T2S) : Option Nat :=
-  (memParents K t).foldl (fun acc p =>
-    match posOf p s.sorted 0 with
-    | none => acc
-    | some i => match acc with
-      | none => some i
-      | some j => if i > j then some i else some j) none
+def SORT_START : Nat := 2 ^ 62
 
-/-- insertDownFromHere: skip `start` elements, then insert before the first element `t` beats -/
-def insertDown (s : State) (t : T2S) (b : Nat) : Nat → List Nat → List Nat
-  | _, [] => [b]
+/-- adjustSortIndexStep -/
+def stepFor (cnt : Nat) : Nat := 2 ^ 60 / (2 * (if cnt < 100000 then 100000 else cnt))
+
+/-- SortRank of the record with key `b` (a record that never got one has 0) -/
+def rankOf (s : State) (b : Nat) : Nat := (s.ranks.get? b).getD 0
+
+/-- findWorstParent: the flagged parent with the highest SortRank (strict `>`: the first one among equals) -/
+def worstParent (K : Keys) (s : State) (t : T2S) : Option Nat :=
+  (memParents K t).foldl (fun acc p =>
+    match acc with
+    | none => some p
+    | some w => if rankOf s p > rankOf s w then some p else some w) none
+
+/-- insertDownFromHere: skip `start` elements, then stop before the first element `t` beats; the position found -/
+def insertPos (s : State) (t : T2S) : Nat → List Nat → Nat
+  | _, [] => 0
   | 0, x :: r =>
     match s.pool.get? x with
-    | some tx => if better t tx then b :: x :: r else x :: insertDown s t b 0 r
-    | none => x :: insertDown s t b 0 r
-  | n + 1, x :: r => x :: insertDown s t b n r
+    | some tx => if better t tx then 0 else 1 + insertPos s t 0 r
+    | none => 1 + insertPos s t 0 r
+  | n + 1, _ :: r => 1 + insertPos s t n r
 
-/-- AddToSort (called from Add, after the record is in the map) -/
+/-- SortRanks SORT_START, +step, +2·step, … along a list (buildSortedList, reindexEverything) -/
+def rankFrom (step : Nat) : Nat → List Nat → AList Nat Nat
+  | _, [] => []
+  | r, b :: l => (b, r % U64) :: rankFrom step (r + step) l
+
+/-- the ranks SORT_START + i·step of a list of `len` elements are increasing and stay inside uint64 -/
+def rankRoom (step len : Nat) : Bool := decide (1 ≤ step) && decide (SORT_START + len * step < U64)
+
+/-- reindexEverything -/
+def reindexAll (s : State) : State :=
+  let step := stepFor s.pool.length
+  { s with sortStep := step, ranks := rankFrom step SORT_START s.sorted,
+           rankWrap := s.rankWrap || !rankRoom step s.sorted.length }
+
+/-- the loop of reindexDown(step) below an element of rank `index`; `none` = the uint64 overflow exit -/
+def reindexWalk (st : Nat) : Nat → List Nat → AList Nat Nat → Option (AList Nat Nat)
+  | _, [], rk => some rk
+  | index, x :: r, rk =>
+    let ni := index + st
+    if ni ≥ U64 then none
+    else if (rk.get? x).getD 0 ≥ ni then some rk
+    else reindexWalk st ni r (rk.set x ni)
+
+/-- reindexDown(sortIndexStep / 16) called on the better neighbour (rank `rb`); `below` = the list from the new
+    element on -/
+def reindexDown (s : State) (rb : Nat) (below : List Nat) : State :=
+  let st := s.sortStep / 16
+  match reindexWalk st rb below s.ranks with
+  | some rk => { s with ranks := rk, rankWrap := s.rankWrap || decide (st = 0) }
+  | none => reindexAll s
+
+/-- fixIndex for the element `b` just linked in between `bt` (better neighbour) and `wr` (worse neighbour);
+    `below` = the list from `b` on. The append at the end of insertDownFromHere (rank of the worst + step) is the
+    case (some, none). uint64 wrap-around is explicit; where the Go code has no guard against it (append at the end;
+    sortIndexStep or sortIndexStep/16 = 0, i.e. more than 2^55 pooled transactions) the ghost flag `rankWrap` is set. -/
+def fixIndex (s : State) (b : Nat) (bt wr : Option Nat) (below : List Nat) : State :=
+  match bt, wr with
+  | none, none => { s with ranks := s.ranks.set b SORT_START }
+  | none, some w =>
+    let rw := rankOf s w
+    if rw > s.sortStep then
+      { s with ranks := s.ranks.set b (rw - s.sortStep), rankWrap := s.rankWrap || decide (s.sortStep = 0) }
+    else if rw / 2 = rw then reindexAll { s with ranks := s.ranks.set b (rw / 2) }
+    else { s with ranks := s.ranks.set b (rw / 2), panicked := true }   -- falls through to t2s.better.SortRank, better == nil
+  | some p, none =>
+    let r := (rankOf s p + s.sortStep) % U64
+    { s with ranks := s.ranks.set b r, rankWrap := s.rankWrap || decide (r ≤ rankOf s p) }
+  | some p, some w =>
+    let rb := rankOf s p
+    let diff := (rankOf s w + U64 - rb) % U64
+    if diff ≥ 2 then { s with ranks := s.ranks.set b ((rb + diff / 2) % U64) }
+    else reindexDown s rb below
+
+/-- AddToSort (called from Add, after the record is in the map; a new OneTxToSend has SortRank 0) -/
 def addToSort (K : Keys) (s : State) (b : Nat) (t : T2S) : State :=
   if s.sortDirty then s
   else if s.sortDisabled then { s with sortDirty := true }
-  else if s.sorted.isEmpty then { s with sorted := [b] }
+  else if s.sorted.isEmpty then { s with sorted := [b], ranks := s.ranks.set b SORT_START }
+  else if !((memParents K t).all fun p => s.pool.has p) then { s with panicked := true }  -- parent.SortRank, parent == nil
   else
-    let start := match worstParentPos K s t with
+    let start := match worstParent K s t with
       | none => 0
-      | some i => i + 1
-    { s with sorted := insertDown s t b start s.sorted }
+      | some w => match posOf w s.sorted 0 with
+        | some i => i + 1
+        | none => 0
+    let j := insertPos s t start s.sorted
+    let pre := s.sorted.take j
+    let post := s.sorted.drop j
+    fixIndex { s with sorted := pre ++ b :: post, ranks := s.ranks.del b } b pre.getLast? post.head? (b :: post)
 
 /-- DelFromSort -/
 def delFromSort (s : State) (b : Nat) : State :=
   if s.sortDirty then s
   else if s.sortDisabled then { s with sortDirty := true }
-  else { s with sorted := s.sorted.filter (· ≠ b) }
+  else { s with sorted := s.sorted.filter (· ≠ b), ranks := s.ranks.del b }
 
 /-! ### Add / Delete (tosend.go) -/
 
@@ -707,7 +777,12 @@ def sortedSlow (K : Keys) (s : State) : List Nat := (sortedSlowP K s).map (·.1)
 
 /-- buildSortedList -/
 def buildSorted (K : Keys) (s : State) : State :=
-  if s.sortDirty then { s with sorted := sortedSlow K s, sortDirty := false } else s
+  if s.sortDirty then
+    let l := sortedSlow K s
+    let step := if l.isEmpty then s.sortStep else stepFor s.pool.length
+    { s with sorted := l, sortDirty := false, sortStep := step, ranks := rankFrom step SORT_START l,
+             rankWrap := !rankRoom step l.length }
+  else s
 
 /-- GetSortedMempool -/
 def getSorted (K : Keys) (s : State) : List Nat :=
